@@ -230,4 +230,227 @@ Proof.
   repeat split; auto; [congruence|discriminate].
 Qed.
 
+(** ** a one-row table stays a one-row table *)
+Lemma tbl_put_single (x y : rev) : r_version x = r_version y -> tbl_put [x] y = [y].
+Proof. intros E. cbn. rewrite E, bytes_eqb_refl. reflexivity. Qed.
+
+Lemma write_single (x y : rev) fs ok t' fs' e :
+  write [x] fs y = (ok, t', fs', e) -> r_version x = r_version y ->
+  exists x', t' = [x'] /\ r_version x' = r_version x.
+Proof.
+  intros W E. apply write_ok_inv in W as (_ & Hput & Hfail & _ & _).
+  destruct ok.
+  - exists y. rewrite (Hput eq_refl), (tbl_put_single _ _ E). auto.
+  - exists x. rewrite (Hfail eq_refl). auto.
+Qed.
+
+Lemma run_stmts_single v rest : forall srest (r x : rev) fs o r2 t' fs' es,
+  run_stmts hash v rest srest r [x] fs = (o, r2, t', fs', es) ->
+  r_version r = r_version x ->
+  (exists x', t' = [x'] /\ r_version x' = r_version x) /\ r_version r2 = r_version x.
+Proof.
+  induction rest as [|s rest IH]; intros srest r x fs o r2 t' fs' es H E; simpl in H.
+  - inversion H; subst. split; [exists x; auto|exact E].
+  - destruct (pop fs) as [fail fs1]. destruct fail.
+    + inversion H; subst. split; [exists x; auto|exact E].
+    + destruct srest as [|h srest].
+      * inversion H; subst. split; [exists x; auto|exact E].
+      * destruct (write [x] fs1 (step_applied r h)) as [[[ok t2] fs2] e] eqn:W.
+        destruct (write_single _ _ _ _ _ _ _ W) as (x1 & -> & Hx1); [simpl; congruence|].
+        destruct ok.
+        -- destruct (run_stmts hash v rest srest (step_applied r h) [x1] fs2) as [[[[o3 r3] t3] fs3] es3] eqn:R.
+           inversion H; subst.
+           destruct (IH _ _ _ _ _ _ _ _ _ R) as [(x' & -> & Hx') Hr]; [simpl; congruence|].
+           split; [exists x'; split; [reflexivity|congruence]|congruence].
+        -- inversion H; subst. split; [exists x1; auto|simpl; exact E].
+Qed.
+
+Lemma execute_single f (r : rev) fs o t' fs' es :
+  r_version r = f_version f ->
+  execute f [r] fs = (o, t', fs', es) ->
+  exists x', t' = [x'] /\ r_version x' = f_version f.
+Proof.
+  intros Hv Hex. unfold ExecModel.execute in Hex.
+  assert (tbl_get [r] (f_version f) = Some r) as Hget by (cbn; rewrite Hv, bytes_eqb_refl; reflexivity).
+  rewrite Hget in Hex.
+  destruct (write [r] fs r) as [[[ok t1] fs1] e1] eqn:W1.
+  destruct (write_single _ _ _ _ _ _ _ W1 eq_refl) as (x1 & -> & Hx1).
+  destruct ok; simpl in Hex; [|inversion Hex; subst; exists x1; split; [reflexivity|congruence]].
+  destruct (if 0 <? r_applied r then check_loop hash hash_eqb (r_applied r) 0 (sums hash HS (f_stmts f)) (r_hashes r) else Some None)
+    as [[c|]|].
+  - destruct (write [x1] fs1 r) as [[[ok2 t2] fs2] e2] eqn:W2.
+    destruct (write_single _ _ _ _ _ _ _ W2) as (x2 & -> & Hx2); [congruence|].
+    inversion Hex; subst. exists x2. split; [reflexivity|congruence].
+  - simpl in Hex. destruct (length (f_stmts f) <? r_applied r).
+    + inversion Hex; subst. exists x1. split; [reflexivity|congruence].
+    + destruct (run_stmts hash (f_version f) (skipn (r_applied r) (f_stmts f)) (skipn (r_applied r) (sums hash HS (f_stmts f)))
+                 (set_total r (length (f_stmts f))) [x1] fs1) as [[[[o2 r2] t2] fs2] es2] eqn:R.
+      destruct (run_stmts_single _ _ _ _ _ _ _ _ _ _ _ R) as [(x2 & -> & Hx2) Hr2]; [simpl; congruence|].
+      destruct o2.
+      * destruct (write [x2] fs2 (set_hashes r2 [])) as [[[ok3 t3] fs3] e3] eqn:W3.
+        destruct (write_single _ _ _ _ _ _ _ W3) as (x3 & -> & Hx3); [simpl; congruence|].
+        inversion Hex; subst. exists x3. split; [reflexivity|congruence].
+      * destruct (write [x2] fs2 r2) as [[[ok3 t3] fs3] e3] eqn:W3.
+        destruct (write_single _ _ _ _ _ _ _ W3) as (x3 & -> & Hx3); [congruence|].
+        inversion Hex; subst. exists x3. split; [reflexivity|congruence].
+      * inversion Hex; subst. exists x2. split; [reflexivity|congruence].
+      * inversion Hex; subst. exists x2. split; [reflexivity|congruence].
+      * inversion Hex; subst. exists x2. split; [reflexivity|congruence].
+  - inversion Hex; subst. exists x1. split; [reflexivity|congruence].
+Qed.
+
+Lemma bytes_leb_refl' a : bytes_leb a a = true.
+Proof. rewrite bytes_leb_ltb, bytes_ltb_irrefl. reflexivity. Qed.
+
+(** [Executor.Pending] when the only file's only revision is complete: nothing to do. *)
+Lemma pending_single_complete c f (r : rev) :
+  f_ckpt f = false -> r_version r = f_version f -> r_applied r = r_total r ->
+  pending c [f] [r] = (PNoPending, None).
+Proof.
+  intros Hck Hv Hdone. unfold pending, skip_checkpoints, last_opt. cbn [filter length Nat.sub nth_error].
+  rewrite Hck. cbn [negb filter].
+  assert (r_applied r =? r_total r = true) as Hd by (apply Nat.eqb_eq; exact Hdone).
+  rewrite Hd. cbn [negb andb].
+  unfold files_last_index. cbn [last_index_from]. rewrite Hv, bytes_leb_refl'.
+  cbn [skipn firstn index_func]. rewrite bytes_leb_refl'.
+  cbn [Nat.ltb Nat.leb andb skipn filter].
+  unfold out_of_order, bsearch. cbn [length map bsearch_loop Nat.ltb Nat.leb Nat.add Nat.div Nat.divmod fst nth_error].
+  rewrite Hv, bytes_ltb_irrefl. cbn [Nat.ltb Nat.leb nth_error].
+  rewrite bytes_eqb_refl, Hd. cbn [negb orb].
+  destruct (c_order c); reflexivity.
+Qed.
+
+(** `atlas migrate apply` on a one-file directory whose partially applied file
+    had only its tail edited, no fault: it executes exactly the new tail,
+    leaves one complete revision, and the next `migrate apply` has nothing to do. *)
+Lemma C12_tail_cli_lemma txfile c n f (r : rev) old :
+  f_ckpt f = false -> r_version r = f_version f -> r_applied r <> r_total r ->
+  recorded r old ->
+  firstn (r_applied r) (f_stmts f) = firstn (r_applied r) old ->
+  exists es r',
+    cli_apply hash hash_eqb HS txfile c n [f] [r] [] =
+      (CRun (SExec ODone), [r'], [], es, map (pair (f_version f)) (skipn (r_applied r) (f_stmts f))) /\
+    r_version r' = f_version f /\
+    r_applied r' = length (f_stmts f) /\ r_total r' = length (f_stmts f) /\ r_hashes r' = [] /\
+    cli_apply hash hash_eqb HS txfile c n [f] [r'] [] = (CPend PNoPending, [r'], [], [], []).
+Proof.
+  intros Hck Hv Hpart Hrec Hsame.
+  assert (tbl_get [r] (f_version f) = Some r) as Hget by (cbn; rewrite Hv, bytes_eqb_refl; reflexivity).
+  destruct (C12_tail_lemma hash hash_eqb HS hash_eqb_spec [r] f r old Hget Hrec Hsame)
+    as (t' & es & r' & Hex & Hj & Hget' & Ha & Ht & Hh & _).
+  destruct (execute_single f r [] _ _ _ _ Hv Hex) as (x' & -> & Hx').
+  assert (x' = r') as ->.
+  { cbn in Hget'. rewrite Hx', bytes_eqb_refl in Hget'. congruence. }
+  assert ((if 0 <? n then firstn n [f] else [f]) = [f]) as E.
+  { destruct n; [reflexivity|]. cbn. destruct n; reflexivity. }
+  exists es, r'. split; [|split; [exact Hx'|split; [exact Ha|split; [exact Ht|split; [exact Hh|]]]]].
+  - unfold cli_apply, read_revisions_f. cbn [pop].
+    change (read_revisions hash [r]) with [r].
+    rewrite (pending_single_partial c f r Hck Hv Hpart). cbn [negb pop]. rewrite E.
+    cbn [StoreModel.apply_files]. rewrite (execute_st_read_ok f [r] []) by reflexivity.
+    cbn [tl]. rewrite Hex. rewrite !app_nil_r, Hj. reflexivity.
+  - unfold cli_apply, read_revisions_f. cbn [pop].
+    change (read_revisions hash [r']) with [r'].
+    rewrite (pending_single_complete c f r' Hck Hx') by congruence. reflexivity.
+Qed.
+
+(** ** whatever fails, recorded progress is never lost and only the tail runs *)
+
+Lemma write_keeps_progress (t : list rev) fs y ok t' fs' e v x k0 :
+  write t fs y = (ok, t', fs', e) ->
+  tbl_get t v = Some x -> k0 <= r_applied x -> r_version y = v -> k0 <= r_applied y ->
+  exists x', tbl_get t' v = Some x' /\ k0 <= r_applied x'.
+Proof.
+  intros W Hget Hx Hv Hy. apply write_ok_inv in W as (_ & Hput & Hfail & _ & _).
+  destruct ok.
+  - exists y. rewrite (Hput eq_refl), <- Hv, tbl_get_put_same. auto.
+  - exists x. rewrite (Hfail eq_refl). auto.
+Qed.
+
+Lemma run_stmts_progress v rest : forall srest (r : rev) t fs o r2 t' fs' es x k0,
+  run_stmts hash v rest srest r t fs = (o, r2, t', fs', es) ->
+  tbl_get t v = Some x -> k0 <= r_applied x -> r_version r = v -> k0 <= r_applied r ->
+  (exists x', tbl_get t' v = Some x' /\ k0 <= r_applied x') /\
+  r_version r2 = v /\ k0 <= r_applied r2 /\
+  exists m, journal es = map (pair v) (firstn m rest).
+Proof.
+  induction rest as [|s rest IH]; intros srest r t fs o r2 t' fs' es x k0 H Hget Hx Hv Hr; simpl in H.
+  - inversion H; subst. repeat split; eauto. exists 0. reflexivity.
+  - destruct (pop fs) as [fail fs1]. destruct fail.
+    + inversion H; subst. repeat split; eauto. exists 0. reflexivity.
+    + destruct srest as [|h srest].
+      * inversion H; subst. repeat split; eauto. exists 1. reflexivity.
+      * destruct (write t fs1 (step_applied r h)) as [[[ok t2] fs2] e] eqn:W.
+        destruct (write_keeps_progress _ _ _ _ _ _ _ _ _ k0 W Hget Hx) as (x1 & Hget1 & Hx1);
+          [simpl; exact Hv|simpl; lia|].
+        pose proof (write_ok_inv _ _ _ _ _ _ _ _ W) as (He & _). subst e.
+        destruct ok.
+        -- subst v.
+           destruct (run_stmts hash (r_version r) rest srest (step_applied r h) t2 fs2) as [[[[o3 r3] t3] fs3] es3] eqn:R.
+           inversion H; subst.
+           destruct (IH _ _ _ _ _ _ _ _ _ _ k0 R Hget1 Hx1) as (Hx' & Hv3 & Hr3 & m & Hm);
+             [reflexivity|simpl; lia|].
+           repeat split; auto. exists (S m). simpl. rewrite Hm. reflexivity.
+        -- inversion H; subst. repeat split; eauto; [simpl; lia|]. exists 1. reflexivity.
+Qed.
+
+(** For every file, table and fault stream: the revision of the file that was
+    stored before [Execute] is still there afterwards and its [Applied] did not
+    decrease (it is never replaced by a fresh one); and when the applied part is
+    intact the statements executed are a prefix of the not-yet-applied tail. *)
+Lemma C12_progress_lemma f (t : list rev) fs r :
+  tbl_get t (f_version f) = Some r ->
+  forall o t' fs' es, execute_st f t fs = (o, t', fs', es) ->
+  (exists r', tbl_get t' (f_version f) = Some r' /\ r_applied r <= r_applied r') /\
+  exists m, journal es = map (pair (f_version f)) (firstn m (skipn (r_applied r) (f_stmts f))).
+Proof.
+  intros Hget o t' fs' es Hex.
+  pose proof (tbl_get_version hash _ _ _ Hget) as Hv.
+  destruct (hd false fs) eqn:Hh.
+  { rewrite (execute_st_read_error _ _ _ Hh) in Hex. inversion Hex; subst.
+    split; [exists r; auto|exists 0; reflexivity]. }
+  rewrite (execute_st_read_ok _ _ _ Hh) in Hex.
+  destruct (execute f t (tl fs)) as [[[o0 t0] fs0] es0] eqn:E.
+  inversion Hex; subst. clear Hex.
+  unfold ExecModel.execute in E. rewrite Hget in E.
+  destruct (write t (tl fs) r) as [[[ok t1] fs1] e1] eqn:W1.
+  destruct (write_keeps_progress _ _ _ _ _ _ _ _ _ (r_applied r) W1 Hget (le_n _) Hv (le_n _)) as (x1 & Hget1 & Hx1).
+  assert (journal [e1] = []) as Hj1.
+  { apply write_ok_inv in W1 as (-> & _). reflexivity. }
+  destruct ok; simpl in E.
+  2:{ inversion E; subst. split; [exists x1; auto|exists 0; exact Hj1]. }
+  destruct (if 0 <? r_applied r then check_loop hash hash_eqb (r_applied r) 0 (sums hash HS (f_stmts f)) (r_hashes r) else Some None)
+    as [[c|]|].
+  - destruct (write t1 fs1 r) as [[[ok2 t2] fs2] e2] eqn:W2.
+    destruct (write_keeps_progress _ _ _ _ _ _ _ _ _ (r_applied r) W2 Hget1 Hx1 Hv (le_n _)) as (x2 & Hget2 & Hx2).
+    inversion E; subst. split; [exists x2; auto|]. exists 0.
+    apply write_ok_inv in W1 as (-> & _). apply write_ok_inv in W2 as (-> & _). reflexivity.
+  - simpl in E. destruct (length (f_stmts f) <? r_applied r).
+    + inversion E; subst. split; [exists x1; auto|exists 0; exact Hj1].
+    + destruct (run_stmts hash (f_version f) (skipn (r_applied r) (f_stmts f)) (skipn (r_applied r) (sums hash HS (f_stmts f)))
+                 (set_total r (length (f_stmts f))) t1 fs1) as [[[[o2 r2] t2] fs2] es2] eqn:R.
+      destruct (run_stmts_progress _ _ _ _ _ _ _ _ _ _ _ _ (r_applied r) R Hget1 Hx1) as ((x2 & Hget2 & Hx2) & Hv2 & Hr2 & m & Hm);
+        [simpl; exact Hv|simpl; lia|].
+      assert (forall e3 : event hash, (exists r3 ok3, e3 = EWrite r3 ok3) ->
+              journal (e1 :: es2 ++ [e3]) = map (pair (f_version f)) (firstn m (skipn (r_applied r) (f_stmts f)))) as Hje.
+      { intros e3 (r3 & ok3 & ->). apply write_ok_inv in W1 as (-> & _). cbn [journal].
+        rewrite journal_app. cbn [journal]. rewrite app_nil_r. exact Hm. }
+      assert (journal (e1 :: es2) = map (pair (f_version f)) (firstn m (skipn (r_applied r) (f_stmts f)))) as Hj2.
+      { apply write_ok_inv in W1 as (-> & _). cbn [journal]. exact Hm. }
+      destruct o2.
+      * destruct (write t2 fs2 (set_hashes r2 [])) as [[[ok3 t3] fs3] e3] eqn:W3.
+        destruct (write_keeps_progress _ _ _ _ _ _ _ _ _ (r_applied r) W3 Hget2 Hx2) as (x3 & Hget3 & Hx3);
+          [simpl; exact Hv2|simpl; exact Hr2|].
+        inversion E; subst. split; [exists x3; auto|]. exists m. apply Hje.
+        apply write_ok_inv in W3 as (-> & _). eauto.
+      * destruct (write t2 fs2 r2) as [[[ok3 t3] fs3] e3] eqn:W3.
+        destruct (write_keeps_progress _ _ _ _ _ _ _ _ _ (r_applied r) W3 Hget2 Hx2 Hv2 Hr2) as (x3 & Hget3 & Hx3).
+        inversion E; subst. split; [exists x3; auto|]. exists m. apply Hje.
+        apply write_ok_inv in W3 as (-> & _). eauto.
+      * inversion E; subst. split; [exists x2; auto|exists m; exact Hj2].
+      * inversion E; subst. split; [exists x2; auto|exists m; exact Hj2].
+      * inversion E; subst. split; [exists x2; auto|exists m; exact Hj2].
+  - inversion E; subst. split; [exists x1; auto|exists 0; exact Hj1].
+Qed.
+
 End Proofs.
